@@ -25,15 +25,15 @@ from . import follow, features
 
 LEVEL = "model_checking"
 RULE = (
-    "BFS to closure on the sync engine of every TREE(N) universal machine, FOLLOW machine and FEATURE machine "
+    "BFS to closure on the sync engine of every TREE(N) universal machine (those holding a parallel state also with keys renamed so that document order is the reverse of id order), irregular larger trees, FOLLOW machine and FEATURE machine "
     "(assign/raise/choose/pure/enqueueActions/guards/output/sync services; self-enqueueing pure / choose / enqueueActions expansion of natural depth 3 and unbounded - cut by the expansion-depth guard); every step is replayed on the "
     "async engine and through initial_transition/transition and compared (configuration, context, status, "
     "output, ordered action list with triggering event type+payload); distinct_nontrivial = distinct canonical "
     "joint states"
 )
 BOUNDS = {
-    "quick": "TREE(N<=4), FOLLOW(N<=3), FEATURE machines, 3 key-colliding machines x every target respelling; closure",
-    "thorough": "TREE(N<=5), FOLLOW(N<=4), FEATURE machines, 6 key-colliding machines x every target respelling; closure",
+    "quick": "TREE(N<=4), 9 parallel + 4 irregular skeletons, FOLLOW(N<=3), FEATURE machines, 3 key-colliding machines x every target respelling; closure",
+    "thorough": "TREE(N<=5), 54 parallel + 10 irregular skeletons, FOLLOW(N<=4), FEATURE machines, 6 key-colliding machines x every target respelling; closure",
 }
 ASSUMPTIONS = [
     "start-up pseudo events ('___xstate_statemachine_init___' / 'entry.<id>') are normalised to INIT",
@@ -45,7 +45,12 @@ PAYLOAD_N = 3
 
 def units(tier: str) -> List[Any]:
     n = 4 if tier == "quick" else 5
-    us: List[Any] = [("tree", t) for t in F.trees_upto(n)] + [("tree", t) for t in F.par_skeletons(tier)]
+    # (the large units first: the pool then ends on small ones)
+    us: List[Any] = [(k, t) for t in F.big_skeletons(tier) for k in (("tree-rev",) if tier == "quick" else ("tree", "tree-rev"))]
+    us += [("tree", t) for t in F.trees_upto(n)] + [("tree", t) for t in F.par_skeletons(tier)]
+    # the same machines with keys named so that document order is the reverse of id order (exit / entry order across
+    # regions must follow the document, identically on every engine): every tree holding a parallel state
+    us += [("tree-rev", t) for t in list(F.trees_upto(n)) + F.par_skeletons(tier) if "P" in F.tree_kinds(t)]
     us += [("follow", spec) for spec in follow.specs(3 if tier == "quick" else 4)]
     us += [("feature", name) for name in features.names()]
     from . import c18
@@ -263,9 +268,11 @@ def run_unit(unit):
     kind, payload = unit
     if kind == "collide":
         return run_collide(payload)
-    if kind == "tree":
-        cfg, nodes, events = F.universal_config(payload, shared=True)
-        return explore(cfg, nodes, events, label=F.tree_str(payload), replay=dict(kind="tree", tree=payload), shape="tree")
+    if kind in ("tree", "tree-rev"):
+        naming = "prefix" if kind == "tree" else "reversed"
+        cfg, nodes, events = F.universal_config(payload, shared=True, naming=naming)
+        return explore(cfg, nodes, events, label=F.tree_str(payload) + ("" if kind == "tree" else " (keys z,y,x,...)"),
+                       replay=dict(kind=kind, tree=payload), shape=kind)
     if kind == "follow":
         cfg, nodes, events = follow.build(payload)
         tree, mode, x, y = payload
@@ -287,8 +294,8 @@ def replay(payload):
         for v in r["violations"]:
             print("  ", v["what"][:300])
         return r["violations"]
-    if payload["kind"] == "tree":
-        unit = ("tree", _tuplify(payload["tree"]))
+    if payload["kind"] in ("tree", "tree-rev"):
+        unit = (payload["kind"], _tuplify(payload["tree"]))
     elif payload["kind"] == "follow":
         unit = ("follow", _tuplify(payload["spec"]))
     else:
